@@ -115,6 +115,7 @@ ApplyEvaluate(m, e, step) ==
         f2 == IF f0 = Ok /\ ~e.same THEN F("evaluate.argsMutated", step, "unchanged", "changed") ELSE Ok
         \* C07 (sign) on the implementation's own numbers against the Boolean dense-time semantics
         f3 == IF f0 = Ok /\ e.ret # <<>> /\ DenseBool(m.phi) /\ Monotone(e.ret)
+                    /\ ~SatUndef(m.phi, CellsOf(m1.fed, UsedVars(m1), d0, d1 + Settle(m.phi)), d1 + Settle(m.phi) - d0 + 1, m.cfg.S)
               THEN LET nn == d1 + Settle(m.phi) - d0 + 1
                        st == SatC(m.phi, CellsOf(m1.fed, UsedVars(m1), d0, d1 + Settle(m.phi)), nn, m.cfg.S)
                        badk == {kk \in 1..n : LET v == StepAt(e.ret, 2 * (d0 + kk - 1)) IN
